@@ -20,48 +20,75 @@ NAME_POOL = ["Alpha", "alpha", "Beta", "beta2", "Zeta", "_under", "Mid", "mid_x"
 
 
 def gen_workspace(rng, base):
-    """returns spec: files, decls = {types: {name: {kind, files:[path]}}, globals: {name: [(path, line)]}, modules: {path: name}}"""
-    main_files = [f"main/{n}.lua" for n in rng.shuffle(["a", "b", "c", "sub/d", "sub/e", "deep/x/f", "zz"])[: rng.range(2, 5)]]
+    """spec: files; types = [{name, kind, private, decls: [[path, line]]}]; globals = {name: [[path, line]]};
+    modules = {path: name}"""
+    stems = rng.shuffle(["a", "b", "c", "sub/d", "sub/e", "deep/x/f", "zz"])[: rng.range(2, 5)]
+    main_files = [f"main/{n}.lua" for n in stems]
+    if rng.chance(1, 2):
+        main_files += ["main/pkg.lua", "main/pkg/init.lua"]          # two files, one module name
     lib_files = ["lib/l1.lua", "lib/pkg/l2.lua"][: rng.range(1, 2)]
     lines = {p: [] for p in main_files + lib_files}
-    types, globals_, modules = {}, {}, {}
+    types, globals_, modules = [], {}, {}
     names = rng.shuffle(NAME_POOL)
-    def decl_type(name, kind, path, partial):
-        t = types.setdefault(name, {"kind": kind, "files": []})
-        t["files"].append(path)
+
+    def decl_type(entry, path, attr):
         L = lines[path]
+        name, kind = entry["name"], entry["kind"]
         ident = "v_" + name.replace(".", "_") + f"_{len(L)}"
+        at = f"({attr}) " if attr else ""
         if kind == "class":
-            L.append(f"---@class {'(partial) ' if partial else ''}{name}")
-            L.append(f"---@field f{len(t['files'])} number")
+            L.append(f"---@class {at}{name}")
+            entry["decls"].append([path, len(L)])
+            L.append(f"---@field f{len(entry['decls'])} number")
             L.append(f"local {ident} = {{}}")
         elif kind == "enum":
-            L.append(f"---@enum {name}")
+            L.append(f"---@enum {at}{name}")
+            entry["decls"].append([path, len(L)])
             L.append(f"local {ident} = {{ A = 1, B = 2, C = 3 }}")
         else:
-            L.append(f"---@alias {name} string|integer")
-    # types
+            L.append(f"---@alias {at}{name} string|integer")
+            entry["decls"].append([path, len(L)])
+
+    def new_type(name, kind, private=False):
+        e = {"name": name, "kind": kind, "private": private, "decls": []}
+        types.append(e)
+        return e
+
     for _ in range(rng.range(2, 6)):
         name = names.pop()
         kind = rng.pick(["class", "class", "enum", "alias"])
         where = rng.below(6)
         if kind == "class" and where == 0 and len(main_files) >= 2:      # partial class split across main files
-            for p in rng.shuffle(main_files)[:2]: decl_type(name, kind, p, True)
+            e = new_type(name, kind)
+            for p in rng.shuffle(main_files)[:2]: decl_type(e, p, "partial")
         elif kind == "class" and where == 1:                              # split between main and library
-            decl_type(name, kind, rng.pick(main_files), True); decl_type(name, kind, rng.pick(lib_files), True)
+            e = new_type(name, kind)
+            decl_type(e, rng.pick(main_files), "partial"); decl_type(e, rng.pick(lib_files), "partial")
         elif where == 2:                                                  # library only
-            decl_type(name, kind, rng.pick(lib_files), False)
+            decl_type(new_type(name, kind), rng.pick(lib_files), None)
         else:
-            decl_type(name, kind, rng.pick(main_files), False)
-    # globals
-    def decl_global(name, path):
+            decl_type(new_type(name, kind), rng.pick(main_files), None)
+    # file-private types: the same name declared in several files = distinct types with equal full names
+    for _ in range(rng.range(1, 2)):
+        name = names.pop()
+        kind = rng.pick(["class", "alias", "enum"])
+        for p in rng.shuffle(main_files)[: rng.range(2, len(main_files))]:
+            decl_type(new_type(name, kind, True), p, "private")
+        if rng.chance(1, 2):
+            decl_type(new_type(name, kind, True), rng.pick(lib_files), "private")
+        if rng.chance(1, 3):                                              # and a public type of that name too
+            decl_type(new_type(name, kind), rng.pick(main_files), None)
+
+    def decl_global(name, path, text=None):
         L = lines[path]
         val = rng.pick(["1", "'s'", "true", "{ x = 1 }", "1.5"])
-        if rng.chance(1, 5):
+        if text is not None:
+            L.append(text)
+        elif rng.chance(1, 5):
             L.append(f"function {name}() end")
         else:
             L.append(f"{name} = {val}")
-        globals_.setdefault(name, []).append((path, len(L)))
+        globals_.setdefault(name, []).append([path, len(L)])
     for i in range(rng.range(2, 6)):
         name = "G_" + names.pop().replace(".", "_")
         where = rng.below(6)
@@ -72,22 +99,30 @@ def gen_workspace(rng, base):
         elif where == 2:
             decl_global(name, rng.pick(lib_files))                                 # library only
         elif where == 3:
-            decl_global(name, rng.pick(lib_files)); decl_global(name, rng.pick(main_files))
+            decl_global(name, rng.pick(lib_files)); decl_global(name, rng.pick(main_files))   # library and main
         else:
             decl_global(name, rng.pick(main_files))
+    # main-workspace globals that share their name with standard-library globals
+    for name, text in rng.shuffle([("unpack", "unpack = unpack or table.unpack"), ("utf8", "utf8 = utf8 or {}"),
+                                   ("print", "print = print"), ("math", "math = math or {}")])[: rng.range(0, 3)]:
+        decl_global(name, rng.pick(main_files), text)
     # modules: some files return a value
     for p in main_files + lib_files:
-        if rng.chance(2, 3):
+        if rng.chance(2, 3) or p.startswith("main/pkg"):
             if rng.chance(1, 2):
                 lines[p].append("return { value = 1 }")
             else:
                 lines[p] += ["local M = {}", "function M.run() end", "return M"]
             rel = p.split("/", 1)[1][:-4]
+            if rel.endswith("/init"): rel = rel[:-5]
             modules[p] = rel.replace("/", ".")
     files = {p: "\n".join(L) + "\n" for p, L in lines.items()}
     files["main/.emmyrc.json"] = json.dumps({"workspace": {"library": ["../lib"]}})
     write_tree(base, files)
-    return {"files": files, "types": types, "globals": {k: [list(x) for x in v] for k, v in globals_.items()}, "modules": modules}
+    return {"files": files, "types": types, "globals": globals_, "modules": modules}
+
+
+STD_GLOBALS = {"unpack", "utf8", "print", "math"}
 
 
 def is_main(p):
@@ -95,22 +130,28 @@ def is_main(p):
 
 
 def expected(spec):
-    types = sorted((t["kind"], n) for n, t in spec["types"].items() if any(is_main(f) for f in t["files"]))
+    """identities of what must be exported: (kind, name, declaring files) per type, global names, (name, file) per module"""
+    types = sorted((t["kind"], t["name"], tuple(sorted({p for p, _ in t["decls"]}))) for t in spec["types"]
+                   if any(is_main(p) for p, _ in t["decls"]))
     globs = sorted(n for n, ds in spec["globals"].items() if any(is_main(p) for p, _ in ds))
-    mods = sorted(n for p, n in spec["modules"].items() if is_main(p))
+    mods = sorted((n, p) for p, n in spec["modules"].items() if is_main(p))
     return types, globs, mods
 
 
-def model_requests(spec, rng):
+def model_requests(spec, rng, fid):
+    """fid: relative path -> the real FileId"""
     paths = sorted(p for p in spec["files"] if p.endswith(".lua"))
-    fid = {p: i for i, p in enumerate(paths)}
     mains = ",".join(str(fid[p]) for p in paths if is_main(p)) or "-"
-    allnames = sorted(set(spec["types"]) | set(spec["globals"]) | set(spec["modules"].values()), key=lambda s: s.encode())
+    allnames = sorted({t["name"] for t in spec["types"]} | set(spec["globals"]) | set(spec["modules"].values()), key=lambda s: s.encode())
     rank = {n: i for i, n in enumerate(allnames)}
     kind = {"class": 0, "enum": 1, "alias": 2}
-    tl = [f"{rank[n]}:{kind[t['kind']]}:{'.'.join(str(fid[f]) for f in t['files'])}" for n, t in spec["types"].items()]
-    tl += [f"{len(allnames) + 1}:5:{fid[paths[0]]}"]                      # a non-exportable kind in the map
+    tl = []
+    for t in spec["types"]:
+        locs = sorted((fid[p], line) for p, line in t["decls"])
+        tl.append(f"{rank[t['name']]}:{kind[t['kind']]}:{'.'.join(f'{f}/{l}' for f, l in locs)}")
+    tl += [f"{len(allnames) + 1}:5:{fid[paths[0]]}/1"]                     # a non-exportable kind in the map
     gl = [f"{rank[n]}:{fid[p]}:{line}:1" for n, ds in spec["globals"].items() for p, line in ds]
+    gl += [f"{rank[n]}:0:{i + 1}:1" for i, n in enumerate(sorted(spec["globals"])) if n in STD_GLOBALS]   # the std declaration
     ml = [f"{rank[spec['modules'][p]] if p in spec['modules'] else len(allnames) + 2 + i}:{fid[p]}:{1 if p in spec['modules'] else 0}"
           for i, p in enumerate(paths)]
     reqs = [f"order.export_types {mains} {';'.join(rng.shuffle(tl)) or '-'}",
@@ -138,6 +179,9 @@ def run_case(rep, rng, w, nruns, spec=None):
     inp = {"workspace": spec}
     rep.count("workspaces"); rep.count("files", len(spec["files"]) - 1)
     rep.count("declared.types", len(spec["types"])); rep.count("declared.globals", len(spec["globals"])); rep.count("declared.modules", len(spec["modules"]))
+    rep.count("declared.private_same_name_types", sum(1 for t in spec["types"] if t["private"]))
+    rep.count("declared.std_named_globals", sum(1 for n in spec["globals"] if n in STD_GLOBALS))
+    rep.count("declared.same_module_name_pairs", 1 if "main/pkg.lua" in spec["files"] else 0)
     if any(o != outs[0] for o in outs):
         k = next(i for i, o in enumerate(outs) if o != outs[0])
         a, b = outs[0].splitlines(), outs[k].splitlines()
@@ -148,52 +192,69 @@ def run_case(rep, rng, w, nruns, spec=None):
         j = json.loads(outs[0])
     except Exception as e:
         rep.oracle_failure({"input": inp, "class": None, "what": f"export is not JSON: {e}"}); return
-    got_types = [(t["type"], t["name"]) for t in j["types"]]
+    rel = lambda f: os.path.relpath(f, base) if f else ""
+    got_types = sorted((t["type"], t["name"], tuple(sorted({rel(l["file"]) for l in t["loc"]}))) for t in j["types"])
     got_globs = [g["name"] for g in j["globals"]]
-    got_mods = [m["name"] for m in j["modules"]]
+    got_mods = sorted((m["name"], rel(m.get("file"))) for m in j["modules"])
     want_types, want_globs, want_mods = expected(spec)
     rep.nontrivial(["ws", spec["files"]])
     # ---- oracle: complete, exactly once, main only
-    for label, got, want in (("type", got_types, want_types), ("global", got_globs, want_globs), ("module", got_mods, want_mods)):
-        dup = sorted({x for x in got if got.count(x) > 1})
+    for label, got, want in (("type", got_types, want_types), ("global", sorted(got_globs), want_globs), ("module", got_mods, want_mods)):
+        # multiset comparison (a public and a file-private type of one name in one file are two declared types)
+        dup = sorted({x for x in got if got.count(x) > max(1, want.count(x))})
         if dup:
-            rep.oracle_failure({"input": inp, "class": f"export-{label}-listed-twice", "what": f"{label} listed more than once: {dup}"})
-        missing = [x for x in want if x not in got]
+            rep.oracle_failure({"input": inp, "class": f"export-{label}-listed-twice", "what": f"{label} listed more often than declared: {dup}"})
+        missing = sorted({x for x in want if got.count(x) < want.count(x)})
         extra = [x for x in got if x not in want]
         if missing:
             rep.oracle_failure({"input": inp, "class": f"export-{label}-missing", "what": f"{label} declared in the main workspace but not exported: {missing}"})
         if extra:
             rep.oracle_failure({"input": inp, "class": f"export-{label}-not-from-main", "what": f"{label} exported but not declared in the main workspace (library/std?): {extra}"})
-    for t in j["types"]:
-        for loc in t["loc"]:
-            pass
     for g in j["globals"]:
         f = (g.get("loc") or {}).get("file", "")
-        if f and not f.startswith(main):
-            rep.oracle_failure({"input": inp, "class": "export-global-loc-outside-main", "what": f"global {g['name']} is located in {f}"})
+        if not f.startswith(main):
+            rep.oracle_failure({"input": inp, "class": "export-global-loc-outside-main", "what": f"global {g['name']} is located in {f!r}"})
     for m in j["modules"]:
         f = m.get("file") or ""
         if f and not f.startswith(main):
             rep.oracle_failure({"input": inp, "class": "export-module-outside-main", "what": f"module {m['name']} from {f}"})
-    # ---- tie: the model's name sequences
-    reqs, allnames = model_requests(spec, rng)
+    # ---- tie: the model's sequences, with the real file ids
+    rc, out, err = run_proc([VH, "fileids", main], timeout=120)
+    if rc != 0:
+        raise RuntimeError(f"vh-tools fileids failed: {err[-300:]}")
+    fid = {rel(p): i for p, i in json.loads(out.strip().splitlines()[-1])["files"].items()}
+    path_of = {i: p for p, i in fid.items()}
+    reqs, allnames = model_requests(spec, rng, fid)
     resp = run_driver(reqs)
-    def names_of(r, field=0):
+    def seq(r):
         if not r.startswith("ok"): return None
         body = r[3:].strip()
         if body in ("", "-"): return []
-        return [allnames[int(x.split("/")[field])] for x in body.split(",")]
-    m_types, m_globs, m_mods = names_of(resp[0]), names_of(resp[1]), names_of(resp[2])
+        out_ = []
+        for x in body.split(","):
+            parts = x.split("/")
+            out_.append((allnames[int(parts[0])],) + tuple(path_of.get(int(parts[1]), "?") if i == 0 else int(v) for i, v in enumerate(parts[1:]) if True) if len(parts) > 1 else (allnames[int(parts[0])],))
+        return out_
+    m_types, m_globs, m_mods = seq(resp[0]), seq(resp[1]), seq(resp[2])
+    i_types = [(t["name"], rel(t["loc"][0]["file"]), t["loc"][0]["line"]) if t["loc"] else (t["name"], "?", 0) for t in j["types"]]
+    i_globs = [(g["name"], rel(g["loc"]["file"]), g["loc"]["line"]) for g in j["globals"] if g.get("loc")]
+    i_mods = [(m["name"], rel(m.get("file"))) for m in j["modules"]]
     diffs = []
-    if m_types != [n for _, n in got_types]: diffs.append(f"types impl={[n for _, n in got_types]} model={m_types}")
-    if m_globs != got_globs: diffs.append(f"globals impl={got_globs} model={m_globs}")
-    if m_mods != got_mods: diffs.append(f"modules impl={got_mods} model={m_mods}")
+    # hypothesis of C35_types_perm_invariant, checked on this workspace: the sort key is injective
+    if len(set(i_types)) != len(i_types):
+        diffs.append(f"hypothesis violated: two exported types share the sort key (name, first declaration): {i_types}")
+    keys = [(t["name"], min((fid[p], l) for p, l in t["decls"])) for t in spec["types"]]
+    if len(set(keys)) != len(keys):
+        diffs.append("hypothesis violated: two declared types share (name, first declaration)")
+    if m_types != i_types: diffs.append(f"types impl={i_types} model={m_types}")
+    if m_globs != i_globs: diffs.append(f"globals impl={i_globs} model={m_globs}")
+    if m_mods != i_mods: diffs.append(f"modules impl={i_mods} model={m_mods}")
     if diffs:
         rep.mismatch({"input": inp, "what": "; ".join(diffs), "requests": reqs})
     else:
         rep.traces_validated += 1
     if w < 2:
-        rep.sample({"files": sorted(spec["files"]), "types": got_types, "globals": got_globs, "modules": got_mods, "runs": nruns,
+        rep.sample({"files": sorted(spec["files"]), "types": i_types, "globals": i_globs, "modules": i_mods, "runs": nruns,
                     "bytes": len(outs[0])})
 
 
